@@ -65,7 +65,7 @@ def tasks(tier):
     # Solver._get_timestep (C10): its contract -- on EVERY iteration the step
     # is the freshly computed one, damped and clipped -- is re-proved here
     return ['factors', 'explicit', 'hmin', 'step', 'solver', 'canary',
-            'dep:C10:timestep']
+            'dep:C10:timestep', 'dep:C10:solve']
 
 
 # ------------------------------------------------------------ abstract arrays
